@@ -68,10 +68,12 @@ func setup6(args ...string) (handler.Handler6, error) {
 	}
 	params := u.Query().Get("params")
 	// DHCPv6 option lengths are 16 bits (the parameter carries 2 more bytes for its own length)
-	if len(u.String()) > 0xffff || len(params)+2 > 0xffff {
+	if len(args[0]) > 0xffff || len(params)+2 > 0xffff {
 		return nil, fmt.Errorf("NBP URL or parameters too long for a DHCPv6 option")
 	}
-	opt59 = dhcpv6.OptBootFileURL(u.String())
+	// the URL goes out as it is written in the configuration: re-serialising it
+	// would percent-encode what boot firmware expands itself (iPXE's ${net0/mac})
+	opt59 = dhcpv6.OptBootFileURL(args[0])
 	if params != "" {
 		// RFC5970 §3.2: each parameter is preceded by its 16-bit length
 		opt60 = dhcpv6.OptBootFileParam(params)
@@ -89,7 +91,8 @@ func setup4(args ...string) (handler.Handler4, error) {
 	var otsn, obfn dhcpv4.Option
 	switch u.Scheme {
 	case "http", "https", "ftp":
-		obfn = dhcpv4.OptBootFileName(u.String())
+		// as written in the configuration (see setup6)
+		obfn = dhcpv4.OptBootFileName(args[0])
 	default:
 		otsn = dhcpv4.OptTFTPServerName(u.Host)
 		obfn = dhcpv4.OptBootFileName(u.Path)
